@@ -193,7 +193,7 @@ fn char_is_normal_string() {
 
 // Both representations around the inline limit (21 bytes) with concrete strings: 21 bytes is
 // Small, 22 bytes is Large (Arc<str>).
-// killed by: SmartString::mark_safe `Self::Large(s, k) => Self::Large(s, k)`;
+// killed by: SmartString::mark_safe keeping the old kind (Small arm and `Self::Large(s, k) => Self::Large(s, k)`);
 // SmartString::kind `Self::Large(..) => StringKind::Safe`
 #[kani::proof]
 #[kani::unwind(24)]
